@@ -29,7 +29,9 @@ LEVEL = 'exploration'
 RULE = (
     'Hypothesis draws sweeper class x preconditioner name(s) x node family/type/count x dt in 10^[-3,0.5] x dense linear operator(s) '
     '(dim 1-4, optional time-dependent forcing) x arbitrary node values (consistent f) x tau on/off x end-point mode x sweep index k. '
-    'Non-trivial = node values not all equal and M >= 2 (RK: >= 2 stages); distinct = (sweeper, names, node set, dim, tau, coll-update, k).'
+    'Further clauses: boris_2nd_order and RKN / Velocity_Verlet on the Penning trap (1-2 particles, random field strengths, optional time-dependent field), the four multistep classes through 1-6 controller steps, '
+    'FullyImplicitDAE / SemiImplicitDAE / RungeKuttaDAE classes on the shipped DAE problems with states near the exact solution. '
+    'Non-trivial = node values not all equal and M >= 2 (RK: >= 2 stages; multistep: >= 2 steps); distinct = (sweeper, names, node set, dim, tau, coll-update, k).'
 )
 ASSUMPTIONS = [
     'Q and QDelta are read from the sweeper object (they define the iteration) and separately cross-checked against qmat built independently',
